@@ -345,11 +345,10 @@ theorem handleResponse_tracked (env : Nat → Content) (cap : Nat) (st : RepairS
 
 /- Full statement (`not_derailed`): on every fair stream of responses / timeouts that eventually contains
    a correct answer to each outstanding request, an active repair completes, whatever is interleaved.
-   Proved: the safety core that makes the fairness argument go through — an invalid response to an
-   outstanding request leaves that request outstanding *with its retry timer pending* and changes
-   nothing else, and the two invariants (`Tracked`, `RootsKnown`) survive every step. Not proved: the
-   end-to-end progress measure over fair streams (and the target-peer choice, which is not modelled);
-   the oracle `repair-derailed` of `harness/src/bin/c14.rs` checks completion on the real code. -/
+   That is now a theorem: `repair_completes` in `Props/C14Live.lean` (with the hypothesis `Admissible`,
+   shown necessary there). Below is its safety core — an invalid response to an outstanding request
+   leaves that request outstanding *with its retry timer pending* and changes nothing else, and the two
+   invariants (`Tracked`, `RootsKnown`) survive every step — kept under its historical name. -/
 
 /-- **Cannot be derailed (safety core).** -/
 theorem not_derailed_partial (env : Nat → Content) (cap : Nat) (st : RepairSt) (store : Store) (resp : Resp)
